@@ -253,7 +253,7 @@ func forFor(f *forExpander) forStateFn {
 
 	f.forLineLabelsToWrite = make([]string, len(f.forLineLabels))
 	for i, label := range f.forLineLabels {
-		f.forLineLabelsToWrite[i] = fmt.Sprintf("__for_%s_%s", f.forCountLabel, label)
+		f.forLineLabelsToWrite[i] = label
 	}
 
 	f.forCount = val
@@ -356,18 +356,7 @@ func forRof(f *forExpander) forStateFn {
 				if tok.val == f.forCountLabel {
 					f.emit(token{tokNumber, fmt.Sprintf("%d", i)})
 				} else {
-					found := false
-					for _, label := range f.forLineLabels {
-						forLabel := fmt.Sprintf("__for_%s_%s", f.forCountLabel, label)
-						if tok.val == label {
-							f.emit(token{tokText, forLabel})
-							found = true
-							break
-						}
-					}
-					if !found {
-						f.emit(tok)
-					}
+					f.emit(tok)
 				}
 			} else {
 				f.emit(tok)
